@@ -49,7 +49,8 @@ type LemmaJSON struct {
 	Error       string    `json:"error,omitempty"`
 }
 
-var tagRe = regexp.MustCompile(`#(?:assert|post|pre):(C\d\d)/|(?:step|inv|peel)_((?:C\d\d_)+)`)
+var tagRe = regexp.MustCompile(`#(?:assert|post|pre):((?:C\d\d\+)*C\d\d)/|(?:step|inv|peel|exit)_((?:C\d\d_)+)`)
+var labelRe = regexp.MustCompile(`^"((?:C\d\d\+)*C\d\d)/`)
 
 // oblProperties: the properties an obligation is labelled with (none: nil).  A step /
 // invariant function may carry several: step_C07_C08_C17_name.
@@ -59,7 +60,7 @@ func oblProperties(name string) []string {
 		return nil
 	}
 	if m[1] != "" {
-		return []string{m[1]}
+		return strings.Split(m[1], "+") // a label may carry several: "C01+C06/..."
 	}
 	return strings.Split(strings.TrimSuffix(m[2], "_"), "_")
 }
@@ -114,8 +115,12 @@ func (P *Program) mentionsDirect(fn *ssa.Function, prop string) bool {
 	}
 	found := false
 	ast.Inspect(syn, func(n ast.Node) bool {
-		if bl, ok := n.(*ast.BasicLit); ok && strings.HasPrefix(bl.Value, "\""+prop+"/") {
-			found = true
+		if bl, ok := n.(*ast.BasicLit); ok {
+			if m := labelRe.FindStringSubmatch(bl.Value); m != nil {
+				for _, t := range strings.Split(m[1], "+") {
+					found = found || t == prop
+				}
+			}
 		}
 		return !found
 	})
